@@ -10,6 +10,10 @@ EXPLANATION = (
     "expression (Z3). Z4: on every recursive cycle at most one alternative of any alternation can re-enter the cycle on the same first token(s), unless the memo table is unbounded - with the default 128-entry FIFO memo a second overlapping alternative multiplies the work per nesting level. The recursive cycles that contain alternations - the reason memoisation is required "
     "- are listed (Z2). No timing is measured: a bound on run time is a run-time quantity and is not "
     "claimed.")
+EXPLANATION += (
+    " Z5: because the memo table is bounded (enablePackrat() keeps 128 entries, FIFO), in every longest-match alternation "
+    "the self-recursive alternatives are tried after all others, so that nothing runs between the trial of a recursive "
+    "winner and its second parse (otherwise long qualified names evict the nested entries and every level is parsed twice).")
 ASSUMPTIONS = [
     "pyparsing's packrat memoisation behaves as documented (cache keyed by (expr, position))",
     "no bound on parse time is claimed; only that memoisation is on and the grammar has no "
@@ -23,4 +27,5 @@ def run(ctx, rep):
     rep.run(RG.rule_recursion_evidence, ctx, rep, "Z2")
     rep.run(RG.rule_termination, ctx, rep, "Z3")
     rep.run(RG.rule_recursion_fanout, ctx, rep, "Z4")
+    rep.run(RG.rule_recursive_alternative_last, ctx, rep, "Z5")
     rep.require_min("Z3", 10)
